@@ -271,6 +271,11 @@ var ValidDiffFormats = []string{output.TextFormat, output.CSVFormat, output.MDFo
 
 // ConnectivityDiffToString returns a string of connections diff from connectivityDiff object in the required output format
 func (da *DiffAnalyzer) ConnectivityDiffToString(connectivityDiff ConnectivityDiff) (string, error) {
+	// an unsupported output format is an error also when there is nothing to write
+	if err := ValidateDiffOutputFormat(da.outputFormat); err != nil {
+		da.errors = append(da.errors, newResultFormattingError(err))
+		return "", err
+	}
 	if connectivityDiff.IsEmpty() {
 		da.logger.Infof("No connections diff")
 		return "", nil
